@@ -121,7 +121,7 @@ def ok(prog, app, mode, fb, gz=0, cache=0):
 def plans(rng, quick):
     fam = []
     # A: curated programs x every protocol variant x every application/io mode, every (sampled) short-write position
-    sweep = 10 if quick else 400
+    sweep = 10 if quick else 120
     progs = CURATED if not quick else CURATED
     for pi, (proto, ka) in enumerate(PROTOS):
         for mi, (app, mode, fb) in enumerate(APPMODES):
@@ -190,7 +190,7 @@ def plans(rng, quick):
                     continue
                 fam.append(line(variant[0], variant[1], app, mode, fb, prog, "chunk:%d:2" % (29 if quick else 7), nh=0, nc=0))
     # shards: interleave so that every shard has a similar mix
-    nshard = 6 if quick else 12
+    nshard = 6 if quick else 30
     shards = [[] for _ in range(nshard)]
     for i, f in enumerate(fam):
         shards[i % nshard].append(f)
